@@ -606,3 +606,46 @@ def rule_rep_structure(ctx):
              and n.func.attr in ("_compose", "compose")]
     if calls:
         check_inverse_transpose(r, d, calls[0], "Representation.dual", "DU")
+
+
+WORDS = "geometry_tools/utils/words.py"
+
+
+def rule_zs1(ctx):
+    r = ctx.r
+    r.rule("ZS1", "group-ring elements (word -> coefficient maps) are added "
+                  "coefficient-wise: utils.words never merges two of them "
+                  "with dict.update / {**a, **b} / a | b, which overwrite "
+                  "the coefficient of a word present in both")
+    m = ctx.p.module_by_rel(WORDS)
+    f = ctx.p.get_function(WORDS, "zmod_sum")
+    r.analysed(f)
+    bad = []
+    for g in m.functions.values():
+        for n in ast.walk(g.node):
+            if isinstance(n, ast.Call) and isinstance(n.func, ast.Attribute) \
+                    and n.func.attr == "update":
+                bad.append((g, n))
+            if isinstance(n, ast.Dict) and any(k is None for k in n.keys) \
+                    and len(n.keys) >= 2:
+                bad.append((g, n))
+            if isinstance(n, ast.BinOp) and isinstance(n.op, ast.BitOr) \
+                    and g.name.startswith("zmod"):
+                bad.append((g, n))
+    adds = [n for n in ast.walk(f.node) if isinstance(n, ast.AugAssign)
+            and isinstance(n.op, ast.Add) and isinstance(n.target, ast.Subscript)]
+    if bad:
+        g, n = bad[0]
+        r.violation("ZS1", f"{g.fq}|{dotted(n)[:80]}", loc(g, n),
+                    dotted(n)[:140],
+                    "coefficient maps are merged by overwriting: a word "
+                    "that occurs in both summands keeps only the second "
+                    "coefficient, so the Fox derivative of a word that is "
+                    "not freely reduced (aA, aAabAB) is wrong and the "
+                    "fundamental formula fails", instance=g.qualname)
+    elif adds:
+        r.ok("ZS1", "zmod_sum", loc(f, adds[0]), norm_stmt(adds[0]),
+             "coefficients are accumulated with +=")
+    else:
+        r.ok("ZS1", "zmod_sum", loc(f, f.node), "",
+             "no overwriting merge of coefficient maps")
